@@ -20,7 +20,7 @@ RULE = ("call sets whose per-record number of complete samples per population is
         "sufficient), m_j + 2, all, none) x random maps (1-3 populations) x projection targets (for small maps EVERY admissible m in "
         "0..2n_j per axis is visited across the run; otherwise boundary-biased); L1 compares every record's contribution vector cell by "
         "cell (relative 1e-9), C compares printed output with |printed - exact| <= 0.5*10^-p + 1e-9*R for precision p in 0..12 and checks "
-        "the number of decimals; cohorts with 100-600 samples (quick: 100-260) exercise t > 170, and 514-520-sample cohorts projected to about half sit where C(t, m) crosses the f64 range. Non-trivial: >=1 record strictly projected "
+        "the number of decimals; cohorts with 100-600 samples (quick: 100-260) exercise t > 170, and 514-520-sample cohorts projected to about half and 514-1000-sample cohorts with every sample called (rare to intermediate allele frequencies), projected to about half, sit where C(t, m) crosses the f64 range and hypergeometric tails underflow. Non-trivial: >=1 record strictly projected "
         "(some t_j > m_j) with non-zero ALT count and >=1 insufficient or exactly-sufficient record; distinct = digest(codes, map, target).")
 ASSUMPTIONS = ["exact reference: Fractions / math.comb", "floating-point allowance 1e-9 relative (measured error of the real pmf ~3e-12)"]
 FLOORS = {"quick": {"evaluations": 3000, "distinct_nontrivial": 800, "counts": {"L1_records": 20000, "C_runs": 250, "exactly_sufficient_records": 500, "insufficient_records": 500}},
@@ -82,7 +82,7 @@ def gen(seed, labels, cohort_max=None):
     rng = rng_for(seed, "c02", *labels)
     if cohort_max == "overflow-band":
         # binomial coefficients cross the f64 range around 1030 chromosomes: C(1030, 515) is just above f64::MAX
-        ns = rng.choice([515, 515, 516, 514])
+        ns = rng.choice([515, 516, 514, 538, 545, 600, 1000])
         npops = 1
         nrec = 3
     elif cohort_max:
@@ -109,7 +109,7 @@ def gen(seed, labels, cohort_max=None):
     else:
         project = G.random_project(rng, smap)
         if cohort_max == "overflow-band":
-            project = [rng.choice([515, 515, 514, 516, 517, z]) for z in sizes]
+            project = [rng.choice([515, 514, 516, 517, z, z + 1, z - 1]) if z < 530 else rng.choice([z, z + 1, z - 2, z // 2, 538]) for z in sizes]
         elif cohort_max:
             project = [rng.choice([2 * z, 2 * z - 1, 171, 172, 170, rng.randint(1, 2 * z), z, 2 * (z // 2)]) for z in sizes]
             project = [min(2 * z, max(0, m)) for m, z in zip(project, sizes)]
@@ -117,8 +117,8 @@ def gen(seed, labels, cohort_max=None):
         # every sample complete (t = 2n exactly), allele frequencies from rare to common: the numerator binomials stay finite
         # for small ALT counts while C(t, m) overflows
         recs = []
-        for ri in range(6):
-            pf = [0.0, 0.002, 0.01, 0.1, 0.5, 0.99][ri]
+        for ri in range(7):
+            pf = [0.0, 0.002, 0.01, 0.1, 0.5, 0.99, 0.45][ri]
             recs.append(Record("c1", 10 + ri, [gt((1 if rng.random() < pf else 0, 1 if rng.random() < pf else 0), False) for _ in samples]))
         cs = CallSet(samples, [("c1", 10 ** 6)], recs)
     else:
